@@ -54,7 +54,7 @@ ShapeD(w) ==
 ShapeF(w) ==
   {<<S(SeqA, a.lm, a.oddc,
        <<I(b.lm, b.oddc, <<P(SelTag("US"), "US", dl, 1),
-                          S(SeqB, c.lm, c.oddc, <<I(a.lm, FALSE, <<P(SelTag("OB"), "OB", dl, 4)>>)>>)>>),
+                          S(SelTag("SQ"), c.lm, c.oddc, <<I(a.lm, FALSE, <<P(SelTag("OB"), "OB", dl, 4)>>)>>)>>),
          I(c.lm, FALSE, <<P(SelTag("LO"), "LO", 3, 2), X(<<F(0, 0), F(dl, 1)>>)>>)>>),
      Sent>> : a \in LMs(w), b \in LMs(w), c \in LMs(w), dl \in SeqDLs}
 ShapeE ==
